@@ -310,7 +310,7 @@ fn topic_thr(a: &Args) {
   for p in 0..programs {
     let cfg = topic::ThrCfg { seed: seed.wrapping_mul(9_000_011).wrapping_add(p), is_async: p % 2 == 1, kf: kf.clone() };
     let gen_ = hist::begin();
-    let r = with_watchdog(move || topic::run_threads(&cfg), Duration::from_secs(20), gen_);
+    let r = with_watchdog(move || topic::run_threads(&cfg), Duration::from_secs(40), gen_);
     let mut recs = hist::take();
     match r {
       Ok(Ok(())) => {}
@@ -444,6 +444,8 @@ fn loader_sched(a: &Args) {
       strategy: strategies[ru % strategies.len()].clone(),
       invalidate: true,
       kf: kf.clone(),
+      // every third scenario runs on the AsyncCache with the async loader
+      is_async: ru % 3 == 1,
     };
     let st = loader::run(&cfg);
     n += 1;
